@@ -15,6 +15,8 @@ import (
 	"servitor/pub"
 )
 
+var _ = strings.Join
+
 // C05 — network faults end in a timely error, never in partial data, a hang or a crash.
 //
 // World-tape layout (so that the enumerator can force it):
@@ -457,4 +459,138 @@ func bodyLen(raw []byte) int {
 		return len(s) - i - 2
 	}
 	return 0
+}
+
+// ------------------------------------------------------------------------------------------
+// c05_pub — the same property one level up: faults hit secondary fetches while a listing is
+// built (items presented as URL, as same-host stub, as embedded object), and several concurrent
+// references to one faulty URL. Every faulted position must be an error item, every request must
+// return within the bound, however many references wait for the same fetch.
+func init() { scenarios["c05_pub"] = scenC05Pub }
+
+func scenC05Pub(r *Run) {
+	f := newFedi(r)
+	t := r.W
+	timeout := r.Timeout
+	host := "h1.example"
+	f.host(host)
+	r.S.PanicProp = "C05"
+	faults := []Fault{{Kind: FStallAfterRequest}, {Kind: FResetBeforeResponse}, {Kind: FCut, Arg: 10 + t.Draw(70), End: Ending(t.Draw(3))}, {Kind: FGarbageResponse},
+		{Kind: FTrickle, Arg: 20, Delta: timeout / 3}, {Kind: FCut, Arg: t.Draw(60), End: EndStall}} // every cut is well inside the response
+	r.Net.TargetFault = map[string]Fault{}
+	n := 2 + t.Draw(6)
+	var items []CItem
+	var kinds []string
+	base := simEpoch.Add(-24 * time.Hour)
+	for i := 0; i < n; i++ {
+		it := f.noteItem(host, base.Add(-time.Duration(i)*time.Minute), false)
+		doc := it.Value.(Doc)
+		id := doc["id"].(string)
+		pres := t.Draw(3) // 0 embedded, 1 URL, 2 same-host stub
+		faulty := pres != 0 && t.Chance(1, 2)
+		switch pres {
+		case 1:
+			it.Value = id
+		case 2:
+			if t.Chance(1, 2) {
+				it.Value = Doc{"id": id, "type": "Note"}
+			} else {
+				it.Value = Doc{"id": id}
+			}
+		}
+		if faulty {
+			pu := mustURL(id)
+			fl := faults[t.Draw(len(faults))]
+			r.Net.TargetFault[host+"|"+pu.RequestURI()] = fl
+			it.Err = true
+			kinds = append(kinds, fmt.Sprintf("%s+%s", []string{"embedded", "url", "stub"}[pres], fl))
+		} else {
+			kinds = append(kinds, []string{"embedded", "url", "stub"}[pres])
+		}
+		items = append(items, it)
+	}
+	l := &CLayout{Host: host, Ordered: true, RootURL: fmt.Sprintf("https://%s/c/%d", host, f.next()), RootItems: items, CycleTo: -1, Total: -1}
+	f.Install(l)
+	// a URL that several things refer to at once and that stalls
+	shared := fmt.Sprintf("https://%s/o/shared", host)
+	f.Serve(shared, Doc{"id": shared, "type": "Note", "name": "T0x"})
+	sf := faults[t.Draw(len(faults))]
+	r.Net.TargetFault[host+"|/o/shared"] = sf
+	fan := 2 + t.Draw(5)
+	r.Describe("scenario", "c05_pub")
+	r.Describe("entries", kinds)
+	r.Describe("shared_url_fault", sf.String())
+	r.Describe("concurrent_references", fan)
+	r.Describe("timeout", timeout.String())
+	r.nontrivial = true
+	r.S.LatTable = []time.Duration{0, 0, 0, time.Millisecond, 5 * time.Millisecond, 20 * time.Millisecond, timeout / 20, timeout / 10}
+
+	bound := 3*timeout + time.Second // one hop per reference
+	// 1. concurrent references to the shared faulty URL
+	var tasks []*Task
+	errs := make([]error, fan)
+	for i := 0; i < fan; i++ {
+		i := i
+		tasks = append(tasks, r.Spawn(fmt.Sprintf("ref%d", i), func() {
+			_, _, errs[i] = client.FetchURL(mustURL(shared))
+		}))
+	}
+	r.Drive(r.AllTasksDone, r.S.Now()+time.Duration(fan+2)*bound+time.Minute, 60000)
+	for i, tk := range tasks {
+		if !tk.Done {
+			r.Violate("C05", "M-time", "hang/concurrent-references", fmt.Sprintf("reference %d of %d to a URL with fault %s is still blocked at %s", i, fan, sf, r.S.Now()))
+			return
+		}
+		if took := tk.End - tk.Start; took > bound {
+			r.Violate("C05", "M-time", "late/concurrent-references", fmt.Sprintf("%d concurrent references to one URL with fault %s: reference %d got its answer after %s, bound per fetch %s (timeout %s)", fan, sf, i, took, bound, timeout))
+			return
+		}
+		if errs[i] == nil && sf.Kind != FTrickle {
+			r.Violate("C05", "partial", "accepted/concurrent-references", fmt.Sprintf("reference %d to a URL with fault %s got a document", i, sf))
+			return
+		}
+	}
+	// 2. the listing
+	var opened any
+	tk := r.Spawn("open", func() { opened = pub.New(l.RootURL, nil) })
+	r.Drive(func() bool { return tk.Done }, r.S.Now()+2*bound, 20000)
+	coll, ok := opened.(*pub.Collection)
+	if !tk.Done || !ok {
+		if r.S.Panicked() {
+			return
+		}
+		r.Violate("C05", "scenario", "listing-not-opened", fmt.Sprintf("pub.New of the fault-free collection document returned %T (done=%v)", opened, tk.Done))
+		return
+	}
+	var got []pub.Tangible
+	hv := r.Spawn("harvest", func() { got, _, _ = coll.Harvest(uint(n+2), 0) })
+	r.Drive(func() bool { return hv.Done }, r.S.Now()+time.Duration(n+2)*bound, 60000)
+	if !hv.Done {
+		if !r.S.Panicked() {
+			r.Violate("C05", "M-time", "hang/listing", fmt.Sprintf("harvesting %d entries (%v) is still blocked at %s", n, kinds, r.S.Now()))
+		}
+		return
+	}
+	if took := hv.End - hv.Start; took > bound+time.Second {
+		// entries are built concurrently: the whole listing takes as long as its slowest entry
+		r.Violate("C05", "M-time", "late/listing", fmt.Sprintf("harvesting %d entries (%v) took %s, bound %s", n, kinds, took, bound+time.Second))
+	}
+	if len(got) != n {
+		r.Violate("C05", "partial", "listing-length", fmt.Sprintf("listing has %d entries, %d expected; %v", len(got), n, kinds))
+		return
+	}
+	for i, it := range got {
+		tok, isErr := itemToken(it)
+		switch {
+		case items[i].Err && !isErr:
+			r.Violate("C05", "partial", "faulted-entry-shown-as-item", fmt.Sprintf("entry %d (%s) whose fetch was broken is shown as an item (%q: %s) instead of an error item", i, kinds[i], tok, trunc(stripSGR(it.Preview(80)), 160)))
+			return
+		case !items[i].Err && (isErr || tok != items[i].Token):
+			r.Violate("C05", "partial", "healthy-entry-not-shown", fmt.Sprintf("entry %d (%s) is shown as %q, expected %s", i, kinds[i], tok, items[i].Token))
+			return
+		}
+		if items[i].Err {
+			r.S.Probe("c05_faulted_entry_is_error_item")
+		}
+	}
 }
